@@ -216,7 +216,10 @@ def function(func=None, *, version=0):
                         raise pickle.UnpicklingError
                 else:
                     value, log_ = data
-            except (EOFError, pickle.UnpicklingError, IndexError):
+            except Exception:
+                # A truncated or partially overwritten entry can fail in the
+                # unpickler itself (EOFError, UnpicklingError, IndexError) or in
+                # the constructor of any object it rebuilds.
                 log.debug('[cache.function {}] failed to load, cache will be rewritten'.format(hkey))
                 pass
             else:
@@ -362,11 +365,11 @@ class Recursion(types.Immutable, metaclass=_RecursionMeta):
                     if not exhausted:
                         try:
                             log_, stop, value = pickle.load(f)
-                        except (pickle.UnpicklingError, IndexError):
-                            log.debug('[cache.Recursion {}.{:04d}] failed to load, cache will be rewritten from this point'.format(hkey, i))
-                            exhausted = True
                         except EOFError:
                             log.debug('[cache.Recursion {}.{:04d}] cache exhausted'.format(hkey, i))
+                            exhausted = True
+                        except Exception:
+                            log.debug('[cache.Recursion {}.{:04d}] failed to load, cache will be rewritten from this point'.format(hkey, i))
                             exhausted = True
                         else:
                             log.debug('[cache.Recursion {}.{:04d}] load'.format(hkey, i))
